@@ -205,14 +205,16 @@ Definition writerange_tensor (s : ring) (r : rng) (offs : list Z) (offshape : li
       if negb (shape_eqb (rshape r) sh) then Err EValue
       else if N s <? len then Err EValue
       else if negb (shape_eqb offshape sh) then Err EValue
-      else if negb (D_eqb d (rdt r)) then Err ERuntime     (* torch.scatter requires equal dtypes *)
       else
+        (* observations of another data type are converted to the storage's first (documented; `obs.to(dtype=...)`
+           before torch.scatter) - the conversion of an observation of the same type is the identity *)
+        let cols := if D_eqb d (rdt r) then rcols r else map (map (cast d)) (rcols r) in
         Ok (set_st s (SFull d sh
           (fold_left
              (fun rs je =>
                 let '(j, e) := je in
                 let i := idx s (shift_off (nth e offs 0%Z) len fwd - Z.of_nat j) in
-                upd rs i (upd (nth i rs []) e (nth j (nth e (rcols r) []) zeroA)))
+                upd rs i (upd (nth i rs []) e (nth j (nth e cols []) zeroA)))
              (list_prod (seq 0 len) (seq 0 (nel sh))) rows)))
            OUnit
   | _ => Err ERuntime
